@@ -110,10 +110,10 @@ func genKey(t *rapid.T) SV {
 
 // typed Go sources offered for a target kind
 var (
-	goSlices  = []int{18, 19, 20, 21, 22, 23, 24, 25, 26, 27, 36, 40, 42, 44, 45}
-	goMaps    = []int{28, 29, 30, 31, 32, 41, 43}
-	goStrs    = []int{13, 17, 18, 20, 7, 4, 5, 16, 10}
-	goRefs    = []int{33, 34, 35, 37, 38, 39, 15}
+	goSlices = []int{18, 19, 20, 21, 22, 23, 24, 25, 26, 27, 36, 40, 42, 44, 45}
+	goMaps   = []int{28, 29, 30, 31, 32, 41, 43}
+	goStrs   = []int{13, 17, 18, 20, 7, 4, 5, 16, 10}
+	goRefs   = []int{33, 34, 35, 37, 38, 39, 15}
 )
 
 // genSVFor draws a script value aimed at a parameter of type T: mostly something Go can
